@@ -35,7 +35,24 @@ class World:
                     return super().schedule(logged, state)
                 return super().schedule(action, state)
 
+        from reactivex.scheduler import ImmediateScheduler
+
+        class LogImmediate(ImmediateScheduler):
+            # a scheduler that runs zero-delay work INLINE (re-entrantly): the operators' hops are logged when they run
+            def schedule(self, action, state=None):
+                qn = getattr(action, "__qualname__", "")
+                if qn.endswith("subscribe.<locals>.action") and any(
+                    p in qn for p in ("concat_with_iterable_", "catch_with_iterable_", "on_error_resume_next_")
+                ):
+                    def logged(sched, st=None, _a=action):
+                        world.log.append(["tick", world.now()])
+                        return _a(sched, st)
+
+                    return super().schedule(logged, state)
+                return super().schedule(action, state)
+
         self.sched = LogScheduler()
+        self.imm = LogImmediate()
         self.log = []
 
     def now(self):
@@ -49,6 +66,8 @@ def make_src(world, sid, spec):
     from reactivex.disposable import CompositeDisposable, Disposable
 
     mode = spec["mode"]
+    if mode == "timer":
+        return make_timer_src(world, sid, spec)
     msgs = spec["msgs"]
     rude = bool(spec.get("rude"))
 
@@ -126,6 +145,32 @@ def make_src(world, sid, spec):
     return Src()
 
 
+def make_timer_src(world, sid, spec):
+    """{"mode": "timer", "due": d, "period": p|None, "count": m}: rx.timer WITHOUT an explicit scheduler - it runs on whatever
+    scheduler reaches it through subscribe(scheduler=...) - behind a logging tap.  Emits (sid, i, 1) for i < m, then completes."""
+    import reactivex as rx
+    from reactivex import operators as ops
+
+    if spec.get("period") is None:
+        t = rx.timer(spec["due"])
+    else:
+        t = rx.timer(spec["due"], spec["period"]).pipe(ops.take(spec["count"]))
+    return make_tap(world, sid, t.pipe(ops.map(lambda i: (sid, i, 1))))
+
+
+def timer_expected(spec, sub_t):
+    """the notifications a timer source delivers to a subscription made at sub_t: [[t, notif]...]"""
+    sid = spec["sid"]
+    if spec.get("period") is None:
+        t = sub_t + spec["due"]
+        return [[t, ["N", enc((sid, 0, 1))]], [t, ["C"]]]
+    out = []
+    for i in range(spec["count"]):
+        out.append([sub_t + spec["due"] + i * spec["period"], ["N", enc((sid, i, 1))]])
+    out.append([out[-1][0], ["C"]])
+    return out
+
+
 def make_tap(world, sid, inner, value_id=None):
     """A logging pass-through around an observable the harness did not build (from_iterable inside start_with / rx.merge)."""
     from reactivex import Observable
@@ -160,10 +205,48 @@ def make_tap(world, sid, inner, value_id=None):
     return Observable(subscribe)
 
 
-def run_world(world, build, dispose=None, cut=None):
+def run_second_subscriber(make_world_and_build, second):
+    """Two subscribers on ONE observable instance: A subscribes at 200 and is disposed at second["dispose1"], B subscribes at
+    second["sub2"] (before or after that).  Returns B's timed output and, for comparison, the output of a single subscriber at
+    the same instant on a FRESH instance of the same case: whatever A did must not leak into B."""
+    def outputs_of(with_first):
+        world, build = make_world_and_build()
+        sched = world.sched
+        holder, out = {}, []
+        sched.schedule_absolute(100, lambda *_: holder.__setitem__("obs", build()))
+
+        def sub(tag, record):
+            def go(*_):
+                holder[tag] = holder["obs"].subscribe(
+                    (lambda v: out.append([world.now(), ["N", enc(v)]])) if record else (lambda v: None),
+                    (lambda e: out.append([world.now(), ["E", err_name(e)]])) if record else (lambda e: None),
+                    (lambda: out.append([world.now(), ["C"]])) if record else (lambda: None),
+                    scheduler=sched)
+            return go
+
+        if with_first:
+            sched.schedule_absolute(SUBSCRIBE_AT, sub("a", False))
+            sched.schedule_absolute(max(second["dispose1"], SUBSCRIBE_AT + 1), lambda *_: holder["a"].dispose())
+        sched.schedule_absolute(max(second["sub2"], SUBSCRIBE_AT + 1), sub("b", True))
+        sched.schedule_absolute(END, lambda *_: sched.stop())
+        sched.start()
+        for t in ("a", "b"):
+            if t in holder:
+                holder[t].dispose()
+        return [o for o in out if o[0] <= END]
+
+    return {"outB": outputs_of(True), "fresh": outputs_of(False)}
+
+
+def gen_second(rng):
+    return {"dispose1": SUBSCRIBE_AT + 5 * rng.randint(1, 10), "sub2": SUBSCRIBE_AT + 5 * rng.randint(1, 14)}
+
+
+def run_world(world, build, dispose=None, cut=None, inline=False):
     """build() -> observable (called at time 100); subscribed at 200; dispose = None | [t, mode] (mode 0: queued before
     the subscription, 1: queued right after it, 2: queued one tick before t); cut = None | m: the
-    subscriber disposes from inside its m-th on_next (what `take(m)` does to its upstream); returns the log."""
+    subscriber disposes from inside its m-th on_next (what `take(m)` does to its upstream); inline: subscribe with an
+    ImmediateScheduler (zero-delay hops of the operator run re-entrantly) instead of the TestScheduler; returns the log."""
     sched, log = world.sched, world.log
     holder = {}
 
@@ -187,7 +270,7 @@ def run_world(world, build, dispose=None, cut=None):
             on_next,
             lambda e: log.append(["out", ["E", err_name(e)], world.now()]),
             lambda: log.append(["out", ["C"], world.now()]),
-            scheduler=sched,
+            scheduler=world.imm if inline else sched,
         )
         if dispose is not None and int(dispose[1]) == 1:
             sched.schedule_absolute(max(dispose[0], SUBSCRIBE_AT), do_dispose)
@@ -203,6 +286,10 @@ def run_world(world, build, dispose=None, cut=None):
         sched.schedule_absolute(td - 1, lambda *_: sched.schedule_absolute(td, do_dispose))
     sched.schedule_absolute(END, lambda *_: sched.stop())
     sched.start()
+    n = len(log)
+    if "d" in holder:
+        holder["d"].dispose()   # cancel whatever is still pending (e.g. wall-clock timers of a broken scheduler hand-over)
+    del log[n:]
     return log
 
 
@@ -309,7 +396,38 @@ def gen_timeline(rng, sid, maxn=4, span=40, base=0, p_complete=0.55, p_error=0.2
     return msgs
 
 
-def gen_src(rng, sid, allow_sync=False, p_rude=0.15, **kw):
+def gen_timer(rng, sid):
+    periodic = rng.random() < 0.6
+    return {"mode": "timer", "sid": sid, "due": 5 * rng.randint(1, 5), "period": 5 * rng.randint(1, 2) if periodic else None,
+            "count": rng.randint(1, 3) if periodic else 1}
+
+
+def timer_delivery_failure(specs, log):
+    """specs: iterable of source specs (timer ones carry their sid). A timer source takes its scheduler from the subscription: every
+    notification it owes to a subscription (made at s, closed at u) with time < u must have been delivered, at that virtual time."""
+    for spec in specs:
+        if spec.get("mode") != "timer":
+            continue
+        sid = spec["sid"]
+        cur = None
+        for e in log + [["unsub", sid, END + 1]]:
+            if e[0] == "sub" and e[1] == sid:
+                cur = {"s": e[2], "got": []}
+            elif e[0] == "ev" and e[1] == sid and cur is not None:
+                cur["got"].append([e[3], e[2]])
+            elif e[0] == "unsub" and e[1] == sid and cur is not None:
+                exp = timer_expected(spec, cur["s"])
+                due = [x for x in exp if x[0] < min(e[2], END)]
+                if cur["got"] != exp[: len(cur["got"])] or len(cur["got"]) < len(due):
+                    return (f"source {sid} (timer, scheduler taken from the subscription) subscribed at {cur['s']} delivered {cur['got']} "
+                            f"until {e[2]}, but owes {due} in virtual time")
+                cur = None
+    return None
+
+
+def gen_src(rng, sid, allow_sync=False, p_rude=0.15, p_timer=0.0, **kw):
+    if p_timer and rng.random() < p_timer:
+        return gen_timer(rng, sid)
     r = rng.random()
     if allow_sync and r < 0.2:
         msgs = gen_timeline(rng, sid, **kw)
@@ -329,7 +447,7 @@ def gen_dispose(rng, p=0.25):
 
 
 # --------------------------------------------------------------------------------------------- higher-order runs (C11, C12)
-def gen_ho_case(rng, op, max_inner=4, allow_sync=True, p_rude=0.15):
+def gen_ho_case(rng, op, max_inner=4, allow_sync=True, p_rude=0.15, p_timer=0.0):
     """outer source 0 whose elements name the inner sources 1..m; optional mapper table with raising entries."""
     m = rng.choice([0, 1, 2, 2, 3, 3, max_inner])
     ids = list(range(1, m + 1))
@@ -348,7 +466,7 @@ def gen_ho_case(rng, op, max_inner=4, allow_sync=True, p_rude=0.15):
     outer = {"mode": "hot" if hot else "cold", "msgs": msgs}
     inners = {}
     for i in range(1, m + 1):
-        inners[str(i)] = gen_src(rng, i, allow_sync=allow_sync, p_rude=p_rude, span=30, p_complete=0.7, p_error=0.12)
+        inners[str(i)] = gen_src(rng, i, allow_sync=allow_sync, p_rude=p_rude, p_timer=p_timer, span=30, p_complete=0.7, p_error=0.12)
     case = {"op": op, "outer": outer, "inners": inners, "dispose": gen_dispose(rng, 0.2)}
     if op in ("flat_map", "flat_map_indexed", "concat_map", "switch_map", "switch_map_indexed", "flat_map_latest") and ids and rng.random() < 0.25:
         case["raise_on"] = rng.choice(ids)   # the mapper raises on this outer element
@@ -381,6 +499,17 @@ def run_ho(case):
 
 def _run_ho_impl(case):
     """-> log of the real run; the outer events are already translated to what the operator after `map` sees."""
+    w, build, idx_seen = ho_world_and_build(case)
+    raise_on = case.get("raise_on")
+    log = run_world(w, build, case.get("dispose"))
+    # what the operator behind `map(mapper)` receives from source 0
+    for e in log:
+        if e[0] == "ev" and e[1] == 0 and e[2][0] == "N" and e[2][1] == raise_on:
+            e[2] = ["E", "mapper"]
+    return log, idx_seen
+
+
+def ho_world_and_build(case):
     import reactivex as rx
     from reactivex import operators as ops
 
@@ -436,12 +565,7 @@ def _run_ho_impl(case):
             return outer.pipe(ops.flat_map_latest(mapper))
         raise ValueError(op)
 
-    log = run_world(w, build, case.get("dispose"))
-    # what the operator behind `map(mapper)` receives from source 0
-    for e in log:
-        if e[0] == "ev" and e[1] == 0 and e[2][0] == "N" and e[2][1] == raise_on:
-            e[2] = ["E", "mapper"]
-    return log, idx_seen
+    return w, build, idx_seen
 
 
 _run_ho = memo(_run_ho_impl)
